@@ -43,7 +43,7 @@ func init() {
 	}}
 	properties["C02"] = propDef{run: func(c *Ctx) *PropertyRun {
 		return &PropertyRun{Level: "other", Trusted: trustedBase, Assume: commonAssumptions,
-			Rules: []*RuleResult{c.rule("R10", ruleR10)},
+			Rules: []*RuleResult{c.rule("R13", ruleR13), rolesFor(c, "C02"), c.rule("R10", ruleR10)},
 			Explain: "partial"}
 	}}
 	properties["C15"] = propDef{run: func(c *Ctx) *PropertyRun {
@@ -75,5 +75,11 @@ func init() {
 		return &PropertyRun{Level: "other", Trusted: trustedBase, Assume: commonAssumptions,
 			Rules: []*RuleResult{c.rule("R17", ruleR17)},
 			Explain: "partial"}
+	}}
+}
+
+func init() {
+	properties["Rdebug"] = propDef{run: func(c *Ctx) *PropertyRun {
+		return &PropertyRun{Level: "other", Rules: []*RuleResult{c.rule("R20", ruleR20)}, Explain: "debug"}
 	}}
 }
